@@ -1,7 +1,7 @@
 (* C17 property theorems (proofs in C04/Errors.v over the same transition system). *)
 From Coq Require Import List Bool Arith.
 Import ListNotations.
-From Miller Require Import C04.Model C04.Search C04.Progress C04.Errors C04.Termination C17.Faults.
+From Miller Require Import C04.Model C04.Search C04.Progress C04.Errors C04.Termination C17.Faults C17.Exit.
 
 (* A failure of the reader (open/parse error), of any verb (Transform error) or of the writer (Write error),
    at any position in the stream, is never lost: whenever main exits, it returns an error.  For every chain
@@ -140,3 +140,85 @@ Theorem C17_writer_fault_after_verb_error_witness :
   exists s, reachable false (init 1 [false; false]) s /\ wr s = WErr /\ cerr (ch s) = true
     /\ is_final (run0 100 s) = true /\ exit_code (run0 100 s) = Some 1.
 Proof. exact writer_fault_after_verb_error. Qed.
+
+(* ------------------------------------------------------------------ process exit layer (C17/Exit.v)
+   xstate wraps the C04 state with: the final bufferedOutputStream.Flush() of stream.Stream (FPending/FOk/FFailed),
+   the process exit status (entrypoint: 1 iff Stream's return value is an error, after the flush error was folded
+   in; or os.Exit(1) taken directly by a verb inside Transform) and whether a diagnostic was written. *)
+
+(* exit status 0 => all input consumed, every verb forwarded end of stream, writer finished, nothing failed,
+   standard output flushed successfully, nothing written to stderr by the exit path *)
+Theorem C17_xexit0_complete :
+  forall (blocking : bool) (k : nat) (kinds : list bool) (x : xstate),
+    xreachable blocking (xinit k kinds) x -> xexit x = Some 0 ->
+    (rd (base x) = RDone /\ Forall (fun v => vp v = VDone) (cvs (ch (base x))) /\ wr (base x) = WDone
+     /\ cfailed (ch (base x)) = false)
+    /\ xfl x = FOk /\ xdiag x = false.
+Proof. exact xexit0_complete. Qed.
+Print Assumptions C17_xexit0_complete.
+
+Theorem C17_xexit_status_and_diagnostic :
+  forall (blocking : bool) (k : nat) (kinds : list bool) (x : xstate) (c : nat),
+    xreachable blocking (xinit k kinds) x -> xexit x = Some c -> (c = 0 /\ xdiag x = false) \/ (c = 1 /\ xdiag x = true).
+Proof. exact xexit_status_and_diagnostic. Qed.
+Print Assumptions C17_xexit_status_and_diagnostic.
+
+(* after a fault of any stage, every way of exiting (main's return, failed flush, os.Exit from a verb) has status 1 *)
+Theorem C17_xfault_exit_nonzero :
+  forall (blocking : bool) (k : nat) (kinds : list bool) (x : xstate) (c : nat),
+    xreachable blocking (xinit k kinds) x -> cfailed (ch (base x)) = true -> xexit x = Some c -> c = 1 /\ xdiag x = true.
+Proof. exact xfault_exit_nonzero. Qed.
+Print Assumptions C17_xfault_exit_nonzero.
+
+Theorem C17_xflush_failure_exit_nonzero :
+  forall (blocking : bool) (k : nat) (kinds : list bool) (x : xstate) (c : nat),
+    xreachable blocking (xinit k kinds) x -> xfl x = FFailed -> xexit x = Some c -> c = 1 /\ xdiag x = true.
+Proof. exact xflush_failure_exit_nonzero. Qed.
+Print Assumptions C17_xflush_failure_exit_nonzero.
+
+Theorem C17_xosexit_enabled :
+  forall (blocking : bool) (x : xstate),
+    xexit x = None -> existsb (fun v => is_work (vp v)) (cvs (ch (base x))) = true ->
+    xstep blocking x (mkX (base x) (xfl x) (Some 1) true).
+Proof. exact xosexit_enabled. Qed.
+Print Assumptions C17_xosexit_enabled.
+
+Theorem C17_xexit_absorbing :
+  forall (blocking : bool) (x : xstate) (c : nat), xexit x = Some c -> xsuccs blocking x = [].
+Proof. exact xexit_absorbing. Qed.
+Print Assumptions C17_xexit_absorbing.
+
+(* end-of-stream close of the redirected outputs (RootNode.ProcessEndOfStream as in /repo): no error returned =>
+   every handler of every manager flushed and closed; any failing close is reported (=> the verb takes its
+   error path VWork true -> VSendE, covered by C17_verb_fault_nonzero_exit) *)
+Theorem C17_process_eos_complete :
+  forall ms : list (list hstate),
+    never_closed ms = true -> snd (process_eos_repo ms) = false -> all_closed_ok (fst (process_eos_repo ms)) = true.
+Proof. exact process_eos_repo_complete. Qed.
+Print Assumptions C17_process_eos_complete.
+
+Theorem C17_process_eos_reports :
+  forall ms : list (list hstate),
+    never_closed ms = true ->
+    existsb (existsb (fun h => match h with HOpen true => true | _ => false end)) ms = true ->
+    snd (process_eos_repo ms) = true.
+Proof. exact process_eos_repo_reports. Qed.
+Print Assumptions C17_process_eos_reports.
+
+(* the keep-only-the-last-manager's-errors variant of that loop (the seeded change C17-1) is refuted *)
+Theorem C17_process_eos_keep_last_refuted :
+  exists ms, never_closed ms = true /\ snd (process_eos true ms) = false
+             /\ all_closed_ok (fst (process_eos true ms)) = false
+             /\ snd (process_eos false ms) = true.
+Proof. exact process_eos_keep_last_refuted. Qed.
+Print Assumptions C17_process_eos_keep_last_refuted.
+
+Theorem C17_xrun_clean_exit0_witness :
+  exists x, xreachable false (xinit 1 [false]) x /\ xsummary x = (MExit false, false, FOk, Some 0, false).
+Proof. exact xrun_clean_exit0. Qed.
+Theorem C17_xrun_flush_failure_exit1_witness :
+  exists x, xreachable false (xinit 1 [false]) x /\ xsummary x = (MExit false, false, FFailed, Some 1, true).
+Proof. exact xrun_flush_failure_exit1. Qed.
+Theorem C17_xrun_osexit_after_reader_fault_witness :
+  exists x, xreachable false (xinit 2 [false]) x /\ xsummary x = (MLoop false, true, FPending, Some 1, true).
+Proof. exact xrun_osexit_after_reader_fault. Qed.
